@@ -1355,7 +1355,7 @@ class CanUnprotect(BaseSecurityContext):
             raise DecodeError("Unsupported unprotected option")
 
         if (
-            len(ciphertext) < self.alg_aead.tag_bytes + 1
+            len(ciphertext) < alg_symmetric.tag_bytes + 1
         ):  # +1 assures access to plaintext[0] (the code)
             raise ProtectionInvalid("Ciphertext too short")
 
